@@ -324,6 +324,109 @@ def rename_selfcalls(vdir, fname, funcs):
     return n_total
 
 
+# ---------------------------------------------------------------------------------------------
+# ghost observer ("watch") injection, DESIGN 10.9: after every expression statement of every function of the named files
+# the call VWATCH(); is added ({ stmt; VWATCH(); }), which compares one nondeterministically chosen byte of the call's
+# read-only inputs with its value at entry.  Add-only, undo-checked like the loop contracts.
+
+WT_B = "/*@WT{*/"
+WT_E = "/*@}WT*/"
+_DECL_KW = {"const", "static", "unsigned", "signed", "int", "char", "long", "short", "size_t", "struct", "enum", "union", "void",
+            "wchar_t", "float", "double", "register", "volatile", "URI_CHAR", "URI_TYPE", "UriBool", "UriMemoryManager"}
+_SKIP_KW = {"return", "break", "continue", "goto"}
+
+
+def all_function_bodies(toks):
+    """(index of '{', index of matching '}') of every function definition: a ')' followed by '{' at brace depth 0"""
+    res = []
+    depth = 0
+    i = 0
+    n = len(toks)
+    while i < n:
+        v = toks[i][1]
+        if v == "{":
+            if depth == 0 and i > 0 and toks[i - 1][1] == ")":
+                d = 0
+                k = i
+                while k < n:
+                    if toks[k][1] == "{":
+                        d += 1
+                    elif toks[k][1] == "}":
+                        d -= 1
+                        if d == 0:
+                            break
+                    k += 1
+                res.append((i, k))
+                i = k + 1
+                continue
+            depth += 1
+        elif v == "}":
+            depth -= 1
+        i += 1
+    return res
+
+
+def _is_decl(toks, i, j):
+    k, v = toks[i][0], toks[i][1]
+    if k != "id":
+        return False
+    if v in _DECL_KW:
+        return True
+    if toks[i + 1][0] == "id":                       # two identifiers in a row: `Type name`
+        return True
+    if toks[i + 1][1] == "*" and toks[i + 2][0] == "id" and toks[i + 3][1] in ("=", ";", ",", "["):
+        return True                                  # `Type * name = ..` (never an expression statement in this code base)
+    return False
+
+
+def _visit_stmts(toks, lf, i, out):
+    k, v = toks[i][0], toks[i][1]
+    j = lf.stmt(i)
+    if v == "{":
+        c = i + 1
+        while toks[c][1] != "}":
+            c = _visit_stmts(toks, lf, c, out)
+        return j
+    if k == "id" and v == "if":
+        b = lf.skip_parens(i + 1)
+        e = _visit_stmts(toks, lf, b, out)
+        if toks[e][0] == "id" and toks[e][1] == "else":
+            _visit_stmts(toks, lf, e + 1, out)
+        return j
+    if k == "id" and v in ("for", "while", "switch"):
+        _visit_stmts(toks, lf, lf.skip_parens(i + 1), out)
+        return j
+    if k == "id" and v == "do":
+        _visit_stmts(toks, lf, i + 1, out)
+        return j
+    if toks[j - 1][1] != ";":                        # case / default / label
+        return j
+    if v == ";" or (k == "id" and v in _SKIP_KW) or _is_decl(toks, i, j):
+        return j
+    out.append((toks[i][2], toks[j - 1][3]))
+    return j
+
+
+def inject_watch(vdir, files):
+    done = []
+    for fname in files:
+        path = os.path.join(vdir, "src", fname)
+        text = open(path).read()
+        toks = tokenize(text)
+        spots = []
+        nfun = 0
+        for lo, hi in all_function_bodies(toks):
+            lf = _LoopFinder(toks, lo, hi)
+            _visit_stmts(toks, lf, lo, spots)
+            nfun += 1
+        for s_off, e_off in sorted(spots, reverse=True):
+            text = text[:e_off] + WT_B + " VWATCH(); }" + WT_E + text[e_off:]
+            text = text[:s_off] + WT_B + "{" + WT_E + text[s_off:]
+        open(path, "w").write(text)
+        done.append("%s: ghost observer VWATCH() added after %d expression statements of %d functions" % (fname, len(spots), nfun))
+    return done
+
+
 WL_RE = re.compile(r'_UT\("((?:[^"\\\n]|\\.)*)"\)')
 
 
@@ -453,6 +556,7 @@ def verify_undo(vdir):
     rn = re.compile(r"__rec\)/\*@RN\*/")
     wl = re.compile(r"/\*@WL\{(.*?)\}\*/.*?/\*@\}WL\*/", re.S)
     wv = re.compile(r"/\*@WV\{\*/.*?/\*@\}WV\*/", re.S)
+    wt = re.compile(r"/\*@WT\{\*/.*?/\*@\}WT\*/", re.S)
     for sub in ("src", "include/uriparser"):
         d = os.path.join(REPO, sub)
         for fn in sorted(os.listdir(d)):
@@ -462,6 +566,7 @@ def verify_undo(vdir):
             orig = open(p, "rb").read()
             q = os.path.join(vdir, sub, fn)
             got = open(q, "rb").read().decode("utf-8", "surrogateescape")
+            got = wt.sub("", got)
             got = wv.sub("", wl.sub(lambda m: m.group(1), rn.sub(")", lc.sub("", got)))).encode("utf-8", "surrogateescape")
             if got != orig:
                 raise StageError("staged %s differs from /repo after undoing the injection" % q)
